@@ -66,7 +66,8 @@ class Ctx:
 
 
 class SimThread:
-    __slots__ = ("tid", "name", "ctx", "sem", "done", "cond", "real", "weight", "is_main", "slow", "meta")
+    __slots__ = ("tid", "name", "ctx", "sem", "done", "cond", "real", "weight", "is_main", "slow", "meta", "nline",
+                 "early_point")
 
     def __init__(self, tid: int, name: str, ctx: Ctx, is_main: bool = False):
         self.tid = tid
@@ -80,6 +81,8 @@ class SimThread:
         self.is_main = is_main
         self.slow = 0          # >0: deprioritised (objective_slow / stalled_worker faults)
         self.meta: dict = {}
+        self.nline = 0         # line events seen by this thread (line granularity)
+        self.early_point = 0   # line granularity: one forced switch early in the thread's life (first-use races)
 
 
 class Sim:
@@ -101,6 +104,8 @@ class Sim:
         self.granularity = sched.get("granularity", "seam")
         self.nline = 0
         self.line_points: set = set()
+        self.early_horizon = int(sched.get("early_horizon", 80))
+        self._line_rng = _stdrandom.Random(H(self.seed, "line-early", sched.get("seed", 0)))
         if self.granularity == "line":
             r = _stdrandom.Random(H(self.seed, "line", sched.get("seed", 0)))
             horizon = int(sched.get("line_horizon", 6000))
@@ -214,8 +219,14 @@ class Sim:
     def _line_tracer(self, frame, event, arg):
         if event == "line" and not self.aborting and len(self.threads) > 1:
             self.nline += 1
+            cur = self.cur()
+            if cur is not None and not cur.is_main:
+                cur.nline += 1
+                if cur.nline == cur.early_point:
+                    self.count("early_line_preemptions")
+                    self.force_preempt(f"early:{frame.f_code.co_name}:{frame.f_lineno}")
+                    return self._line_tracer
             if self.nline in self.line_points:
-                cur = self.cur()
                 if cur is not None:
                     others = [t for t in self._runnable() if t is not cur]
                     if others:
@@ -231,6 +242,8 @@ class Sim:
         t = SimThread(self._next_tid, name, ctx)
         self._next_tid += 1
         self.threads.append(t)
+        if self.granularity == "line":
+            t.early_point = self._line_rng.randrange(1, self.early_horizon + 1)
 
         def body():
             _TLS.t = t
@@ -327,6 +340,24 @@ class Sim:
         if nxt is cur:
             return
         self._switch(cur, nxt)
+
+    def force_preempt(self, why: str = "", slow: int = 4):
+        """Directed pre-emption: park the running (non-main) thread right here, deprioritised for a few scheduler
+        decisions, and let another runnable thread proceed.  Used right after a pooled task wrote to an object it
+        shares with other threads - the start of a potential race window."""
+        cur = self.cur()
+        if cur is None or self.aborting or len(self.threads) < 2:
+            return False
+        others = [t for t in self._runnable() if t is not cur]
+        if not others:
+            return False
+        nxt = others[self.rng_sched.randrange(len(others))]
+        cur.slow = max(cur.slow, slow)
+        self.count("forced_preemptions")
+        self._sched_digest.update(b"F" + bytes([nxt.tid & 0xFF]))
+        self.event("preempt", why)
+        self._switch(cur, nxt)
+        return True
 
     def block(self, cond: Callable[[], bool], why: str = ""):
         """Park the caller until ``cond()`` holds (and the scheduler picks it)."""
